@@ -1,11 +1,12 @@
 import LolHtml.Thm.Full10
 import LolHtml.Thm.Full11
 /-!
-# Package `full`, part 12 — `Full_no_panic_partial4`: only the operation-level hypothesis is left
+# The three lexeme guards never fire in the cleaned runs
 
-Package full's repaired operation-level hypothesis (`Full_scan_opsW_statement`, Thm/Full11.lean) uses the guard
-`withArgs argSite (andGuard kindGuard wmGuard)`: argument guard, kind guard, watermark guard. Here its run-level
-companion is proved — in the runs of the cleaned real controller with the ghost NONE of the three fires:
+Package full's operation-level hypotheses (`Full_scan_opsW_statement`, Thm/Full11.lean; `Full_scan_opsX_statement`,
+Thm/Full12.lean) use the lexeme guard `withArgs argSite (andGuard kindGuard wmGuard)`: argument guard, kind guard,
+watermark guard. Here the run-level companion is proved — in the runs of the cleaned real controller with the ghost NONE
+of the three fires (`Full_clean_guardW`):
 
 * `guardFree2_wm` — the WATERMARK guard (`remaining_content_start ≤ lexeme.raw.start`) never fires in the runs of a
   clean controller: this is the register invariant of C15 (`PInv` / `SInv`: the dispatcher's watermark is at or before
@@ -15,7 +16,7 @@ companion is proved — in the runs of the cleaned real controller with the ghos
 * `guardFree2_and` — two guards that never fire (and refuse with different panics) never fire together.
 * the KIND guard: package scan's `Full_clean_kindH` (Thm/Full10.lean); the ARGUMENT guard: `guardFree2_withArgs`.
 
-`Full_no_panic_partial4 Inv : Full_scan_opsW_statement Inv → Full_no_panic_statement`.
+The assembly (with the hint guard of Thm/Full12.lean on top) is in Thm/Full13.lean.
 -/
 set_option linter.unusedSimpArgs false
 set_option linter.unusedVariables false
@@ -258,45 +259,5 @@ theorem Full_clean_guardW (cfg : Cfg) (settings : Settings) :
   exact guardFree2_withArgs (Dk := fun _ => True) ht argSite_T2 argSite_ne
     (argsCtl_of_clean (w := cleanWorldH cfg) (cleanCtlH_clean cfg) argSite_T2)
     (FullSt.init cfg, none) settings trivial (fun inp => kw_kfresh inp) hkw
-
-/-- **Full_no_panic_partial4.** `Full_no_panic_statement` — every configuration, tag-scanner mode included — from the
-repaired operation-level hypothesis ALONE. Everything else is discharged: the ghost is free (`run_hint`), the lifting
-(`run_relG`), the three guards never fire in the cleaned run (`Full_clean_guardW`), the cleaned run never panics
-(`C15_no_panic_full_gen`). -/
-theorem Full_no_panic_partial4 (Inv : ∀ cfg, Disp (FullStH cfg) → Prop) (h1 : Full_scan_opsW_statement Inv) :
-    Full_no_panic_statement := by
-  intro cfg settings chunks x hx
-  obtain ⟨hI, hL⟩ := h1 cfg
-  have hx' : x ∈ (run (genWorldH cfg) (Rewriter.new (genWorldH cfg) (FullSt.init cfg, none) settings) chunks).2 := by
-    have := run_hint (genWorld cfg) C03.C03_emitsChecked_gen (FullSt.init cfg) none settings chunks
-    unfold genWorldH
-    rw [this]
-    exact hx
-  have hpan : ∀ e, (withArgs argSite (andGuard (kindGuard (γ := FullSt cfg)) wmGuard)).Fires e → ∃ s, e = .panic s := by
-    intro e hF
-    rcases withArgs_fires hF with rfl | rfl | hFK
-    · exact ⟨_, rfl⟩
-    · exact ⟨_, rfl⟩
-    · rcases kw_fires hFK with rfl | rfl | rfl <;> exact ⟨_, rfl⟩
-  have hemit : EmitsChecked (genWorldH cfg).tbl = true := C03.C03_emitsChecked_gen
-  rcases run_relG hL hemit hpan (FullSt.init cfg, none) settings (hI settings.encoding) (Full_clean_guardW cfg settings) chunks x hx'
-    with k | k | ⟨e', ⟨e, hG, hee⟩, hxe⟩
-  · exact C15.C15_no_panic_full_gen (cleanWorldH cfg) rfl (cleanCtlH_clean cfg) (FullSt.init cfg, none) settings chunks x k
-  · rw [k]; trivial
-  · rw [hxe]
-    rcases hee with rfl | rfl
-    · exact hG
-    · rw [hG.parseErr]; exact hG
-
-/-! ### sanity: the repaired hypothesis is not refuted by package full's counterexample -/
-
-/-- the refutation of `Full_scan_opsH_statement` (`Full_scan_opsH_unsat`) runs six `handle_tag` operations from the fresh
-dispatcher of `hazardCfg`; the SECOND one (the end-tag lexeme `0..4`, handed over when the watermark is already at 3) is
-refused by the watermark guard — with the guard of `Full_scan_opsW_statement` the chain stops there -/
-example : ((guardS (withArgs argSite (andGuard kindGuard wmGuard)) (dispOps (fullCtlH hazardCfg))).handleTag hzInp hzLx2 hzD1).2 =
-    .error (.panic wmSite) := by decide +kernel
-
-/-- … while the first operation is let through (it is a lexeme the parser does hand over) -/
-example : (withArgs argSite (andGuard kindGuard wmGuard)).tag hzInp hzLx1 hzD0 = none := by decide +kernel
 
 end LolHtml.Thm.Full
